@@ -137,6 +137,8 @@ def _arr(x):
 
 def run_sub(u, ctx, sub, seen):
     mode, beta, dim, disp, mag = sub
+    if C.unit_failed(u):
+        return
     p_info, s_info, info = ctx.p_info, ctx.s_info, ctx.info
     pp, sp = p_info.parameters, s_info.parameters
     name = "%s@%s/%s" % (p_info.id, s_info.id, sub_name(sub))
@@ -213,7 +215,7 @@ def run_sub(u, ctx, sub, seen):
     A = []
     if disp or mag:
         A = [z3.Real("L%d.%s" % (l, k)) != 0 for l in (0, 1) for k in ("tw", "sv")]
-    ex = symx.Explorer(timeout_ms=20000, max_paths=2000)
+    ex = symx.Explorer(timeout_ms=20000, max_paths=600)
     paths = ex.explore(fn, A)
     u.absorb(ex, paths)
     if not paths:
@@ -225,6 +227,8 @@ def run_sub(u, ctx, sub, seen):
               "first_path_condition": [str(c)[:80] for c in paths[0].pc][:6]})
 
     for pi, p in enumerate(paths):
+        if C.unit_failed(u):
+            break
         if p.cut:
             continue
         H = p.constraints()
@@ -528,7 +532,7 @@ def _validate(u, ctx, sub, by, paths, name):
         env[c.decl().name()] = float(v)
     env["cutoff"] = 0.0
     conc = {}
-    g = lambda x: env[x.t.decl().name()] if isinstance(x, Sym) else float(x)
+    g = lambda x: env[x.t.decl().name()] if C.is_var(x) else float(x)
     for n, (v, d, w) in by.items():
         conc[n] = [g(v), [g(x) for x in d], [g(x) for x in w]]
     qv = Q1 if dim == "1d" else Q2
